@@ -696,7 +696,54 @@ func abbrev(b []byte) string {
 
 // ---- lanes -----------------------------------------------------------------
 
+// stallMonitor measures how late a 5 ms sleeper wakes up: galene drops a client when one
+// write to its socket does not complete within 500 ms, so a process that was not scheduled
+// for that long loses well-behaved connections for reasons no client input explains.
+type stallMonitor struct {
+	mu     sync.Mutex
+	stalls []time.Time // moments at which a stall >= 200 ms ended
+	max    time.Duration
+}
+
+func (sm *stallMonitor) start(run *vk.Run) {
+	go func() {
+		last := time.Now()
+		for {
+			time.Sleep(5 * time.Millisecond)
+			now := time.Now()
+			if d := now.Sub(last) - 5*time.Millisecond; d > 0 {
+				sm.mu.Lock()
+				if d > sm.max {
+					sm.max = d
+				}
+				if d >= 200*time.Millisecond {
+					sm.stalls = append(sm.stalls, now)
+				}
+				sm.mu.Unlock()
+				if d >= 200*time.Millisecond {
+					run.Note(fmt.Sprintf("harness: this process was not scheduled for %d ms", d.Milliseconds()))
+				}
+			}
+			last = now
+		}
+	}()
+}
+
+// recent reports whether the process was starved within the last few seconds.
+func (sm *stallMonitor) recent() bool {
+	sm.mu.Lock()
+	defer sm.mu.Unlock()
+	return len(sm.stalls) > 0 && time.Since(sm.stalls[len(sm.stalls)-1]) < 5*time.Second
+}
+
+func (sm *stallMonitor) maxMS() int64 {
+	sm.mu.Lock()
+	defer sm.mu.Unlock()
+	return sm.max.Milliseconds()
+}
+
 type world struct {
+	stall  stallMonitor
 	run    *vk.Run
 	srv    *vsrv.Server
 	batch  uint64
@@ -718,8 +765,9 @@ func dialHS(srv *vsrv.Server, id string) (*wsc, error) {
 		return nil, err
 	}
 	if _, ok := c.WaitFor(func(m vclient.Msg) bool { return m.Str("type") == "handshake" }, 30*time.Second); !ok {
+		_, cerr := c.Closed()
 		c.Close()
-		return nil, fmt.Errorf("no handshake reply")
+		return nil, fmt.Errorf("no handshake reply for %s (connection error: %v)", id, cerr)
 	}
 	return c, nil
 }
@@ -732,7 +780,20 @@ func (w *world) checkCanary(why string) {
 		return
 	}
 	if !w.canary.Ping(60 * time.Second) {
-		if closed, err := w.canary.Closed(); closed {
+		if closed, err := w.canary.Closed(); closed && w.stall.recent() {
+			// the process was not scheduled for >= 200 ms moments ago: galene's 500 ms write
+			// deadline explains the loss, no client input does
+			w.run.Count("closures_while_process_was_starved", 1)
+			c, derr := dialHS(w.srv, fmt.Sprintf("canary-b%d-r%d", w.batch, w.checkN.Add(1)))
+			if derr == nil {
+				if m, ok := c.Join("canary", "op1", "pw-op1"); ok && m.Str("kind") == "join" {
+					w.canary = c
+					return
+				}
+			}
+			w.bad.Store(true)
+			w.run.Inconclusive("canary lost while the process was starved and could not be re-established (" + why + ")")
+		} else if closed {
 			w.bad.Store(true)
 			w.run.Violation("canary-connection-closed", fmt.Sprintf("a connection that sent nothing but pings (joined as op in its own group) was closed by the server (%v) while other clients were misbehaving", err),
 				map[string]any{"tier": "ws", "batch": w.batch, "when": why})
@@ -759,21 +820,22 @@ func (w *world) checkCanary(why string) {
 }
 
 type lane struct {
-	w       *world
-	idx     int
-	state   string
-	r       *rand.Rand
-	n       int
-	att     *wsc
-	by      *wsc
-	helpers []*wsc
-	cx      *wsCtx
-	label   string
-	dirty   bool
-	stop    chan struct{}
-	churnG  atomic.Value // string: group the churners use
-	churnWG sync.WaitGroup
-	setupOK int
+	w        *world
+	idx      int
+	state    string
+	r        *rand.Rand
+	n        int
+	att      *wsc
+	by       *wsc
+	helpers  []*wsc
+	cx       *wsCtx
+	label    string
+	dirty    bool
+	stop     chan struct{}
+	churnG   atomic.Value // string: group the churners use
+	churnWG  sync.WaitGroup
+	setupOK  int
+	lastFail string
 }
 
 func (ln *lane) teardown() {
@@ -790,9 +852,9 @@ func isClosed(c *wsc) bool {
 	return cl
 }
 
+// fail records why a setup attempt did not reach the state; the caller retries.
 func (ln *lane) fail(reason string) bool {
-	ln.w.run.Inconclusive(fmt.Sprintf("batch %d: setting up state %q failed: %s", ln.w.batch, ln.state, reason))
-	ln.w.bad.Store(true)
+	ln.lastFail = reason
 	return false
 }
 
@@ -804,7 +866,8 @@ func (ln *lane) helper(id, group string, u userT) (*wsc, bool) {
 	ln.helpers = append(ln.helpers, c)
 	m, ok := c.Join(group, u.name, u.pw)
 	if !ok || m.Str("kind") != "join" {
-		return nil, ln.fail(fmt.Sprintf("helper %s could not join %s: %v", u.name, group, m))
+		_, cerr := c.Closed()
+		return nil, ln.fail(fmt.Sprintf("helper %s (%s) could not join %s: %v (connection error: %v)", u.name, id, group, m, cerr))
 	}
 	return c, true
 }
@@ -891,7 +954,8 @@ func (ln *lane) setup() bool {
 		}
 		h.Send(vclient.Msg{"type": "groupaction", "kind": "lock", "source": h.ID, "value": "locked for the test"})
 		if !h.Ping(30 * time.Second) {
-			return ln.fail("locking helper died")
+			_, cerr := h.Closed()
+			return ln.fail(fmt.Sprintf("locking helper %s died (connection error: %v)", h.ID, cerr))
 		}
 		ln.by = h
 		if !dial() {
@@ -1109,14 +1173,21 @@ func (ln *lane) learnSeen() {
 	}
 }
 
-func (ln *lane) runCase(c wsCase) {
+func (ln *lane) runCase(c wsCase, confirming bool) {
 	w := ln.w
 	if w.bad.Load() {
 		return
 	}
 	if ln.att == nil || ln.dirty || isClosed(ln.att) || (ln.by != nil && isClosed(ln.by)) {
-		if !ln.setup() {
-			return
+		for try := 0; !ln.setup(); try++ {
+			// a connection of the harness may be lost for reasons that are no client input
+			// (galene drops a client whose socket write takes more than 500 ms)
+			w.run.Count("ws_setup_retries", 1)
+			if try == 4 {
+				w.run.Inconclusive(fmt.Sprintf("batch %d: setting up state %q failed 5 times, last: %s", w.batch, ln.state, ln.lastFail))
+				w.bad.Store(true)
+				return
+			}
 		}
 		ln.dirty = false
 	}
@@ -1176,6 +1247,16 @@ func (ln *lane) runCase(c wsCase) {
 			}
 			if kicked {
 				w.run.Count("bystander_legitimately_kicked", 1)
+			} else if !confirming {
+				// a closure caused by the attacker's input is reproducible: say so only if the
+				// same case in a freshly built state loses the bystander again
+				w.run.Count("bystander_closures_rechecked", 1)
+				if w.stall.recent() {
+					w.run.Count("closures_while_process_was_starved", 1)
+				}
+				ln.dirty = true
+				ln.runCase(c, true)
+				return
 			} else {
 				_, cerr := ln.by.Closed()
 				w.run.Violation("bystander-closed:"+ln.state+":"+c.Kind, fmt.Sprintf("a well-behaved member of %s was disconnected (%v) without being kicked, after another client [%s] sent %s %s", ln.cx.group, cerr, ln.label, c.Kind, c.Mut),
@@ -1224,7 +1305,7 @@ func (ln *lane) run(cases []wsCase) {
 		}
 	}
 	for i, c := range cases {
-		ln.runCase(c)
+		ln.runCase(c, false)
 		if w.bad.Load() {
 			break
 		}
